@@ -161,10 +161,34 @@ def strip_comments(text):
     return "".join(out)
 
 
+CONSTS_ERROR = [None]
+# which part of the model a constant / type alias of the Rust sources belongs to (prefixes of project files)
+CONST_AREAS = [(("LARGE_LABEL", "Label = i32", "EdgeWeight = i32", "Score = u32"), ("hungarian/",)),
+               (("WEIGHT_OFFSET", "INSTRUCTOR_SCORE", "edge_weight", "MIN_K", "MAX_NTOK", "MAX_N"), ("caobab/",)),
+               (("MINIMUM_EXPORT_VERSION", "MAXIMUM_EXPORT_VERSION", "OUTPUT_EXPORT_VERSION", "default sizes"), ("io/Cde", "io/Json")),
+               (("simple output",), ("io/Simple", "io/Listing"))]
+
+
+def consts_error_relevant(msg, cone):
+    """a constant that can no longer be extracted breaks the tie of every property whose theorems depend on the generated file or on the
+    part of the model the constant belongs to"""
+    if os.path.normpath("gen/Consts.v") in cone:
+        return True
+    for names, prefixes in CONST_AREAS:
+        if any(("cannot find " + n) in msg for n in names):
+            return any(f.startswith(p) for f in cone for p in prefixes)
+    return True
+
+
 def regenerate_consts():
+    """the translated part of the model.  When a constant can no longer be found in the Rust sources the tie is broken: the previous
+    coq/gen/Consts.v (committed) is kept so that the development still builds and the streams can search for a failing input; coq_side
+    then raises BrokenProof, and the driver reports the violation with the failing input if one is found (no-failing-input-found otherwise)"""
     rc, out, err, _ = run([sys.executable, os.path.join(VERIF, "bin", "extract_consts.py")], timeout=60)
+    CONSTS_ERROR[0] = None
     if rc != 0:
-        raise Violation("constants could not be extracted from /repo: " + (out + err)[-500:], None, no_input=True)
+        CONSTS_ERROR[0] = "translator bin/extract_consts.py: constants could not be extracted from /repo (the model keeps the last " \
+                          "extracted values): " + (out + err)[-500:].strip()
 
 
 def coq_make(targets=None):
@@ -324,6 +348,8 @@ def coq_side(pid, allow=()):
     n, names = count_obligations(cone)
     info["cone"] = cone
     info["obligations"] = n
+    if CONSTS_ERROR[0] and consts_error_relevant(CONSTS_ERROR[0], cone):
+        raise BrokenProof(CONSTS_ERROR[0])
     return info
 
 
